@@ -99,6 +99,12 @@ static void c15_batch(long idx, long n, uint64_t seed) {
         std::string base = "http://127.0.0.1:" + std::to_string(srv.port);
         std::string cfg = "threads=" + std::to_string(threads) + " maxConnectionsPerHost=" + std::to_string(maxConn) + " requests=" + std::to_string(nreq) + " scenario=" + std::to_string(scenario);
         set_case(idx, Json().num("i", idx).str("phase", "c15").str("config", cfg).done());
+        // application threads issuing the batch: 1, or several released together (the pool is then claimed concurrently by the
+        // issuers and by the I/O threads handing queued requests over)
+        int issuers = r.chance(2, 5) ? r.range(2, 6) : 1;
+        cfg += " issuers=" + std::to_string(issuers);
+        set_case(idx, Json().num("i", idx).str("phase", "c15").str("config", cfg).done());
+        std::vector<int> params((size_t)nreq); std::vector<std::string> bodies((size_t)nreq); std::vector<int> pauseAfter((size_t)nreq, -1);
         for (int k = 0; k < nreq; k++) {
             out.emplace_back(new Outcome());
             int b;
@@ -115,9 +121,13 @@ static void c15_batch(long idx, long n, uint64_t seed) {
             if (scenario == 4) { if (b == B_IMMEDIATE) to = 250; else param = 600 + r.range(0, 39); }
             if (b == B_NEVER) to = 400;
             if (b == B_LATE) { to = 200; param = 600; }
-            timeoutMs[(size_t)k] = to;
-            std::string bodyIn; if (r.chance(1, 3)) { int bl = r.range(1, 300); for (int j = 0; j < bl; j++) bodyIn += (char)r.below(256); }
-            Outcome* o = out.back().get();
+            timeoutMs[(size_t)k] = to; params[(size_t)k] = param;
+            if (r.chance(1, 3)) { int bl = r.range(1, 300); for (int j = 0; j < bl; j++) bodies[(size_t)k] += (char)r.below(256); }
+            if (r.chance(1, 6)) pauseAfter[(size_t)k] = r.range(0, 3);
+        }
+        auto issue = [&](int k) {
+            int b = beh[(size_t)k], param = params[(size_t)k], to = timeoutMs[(size_t)k]; const std::string& bodyIn = bodies[(size_t)k];
+            Outcome* o = out[(size_t)k].get();
             auto rb = bodyIn.empty() ? client.get(base + "/t/" + std::to_string(k) + "/" + std::to_string(b) + "/" + std::to_string(param)) : client.post(base + "/t/" + std::to_string(k) + "/" + std::to_string(b) + "/" + std::to_string(param));
             if (!bodyIn.empty()) rb.body(bodyIn);
             rb.header<Http::Header::Server>("blen-" + std::to_string(bodyIn.size()));
@@ -126,7 +136,16 @@ static void c15_batch(long idx, long n, uint64_t seed) {
                 rb.send().then([o](Http::Response resp) { int t = -1; sscanf(resp.body().c_str(), "tag=%d;", &t); o->tag = t; o->status = (int)resp.code(); o->at = lv::now(); o->fulfilled++; },
                                [o](std::exception_ptr) { o->at = lv::now(); o->rejected++; });
             } catch (const std::exception& e) { o->err = e.what(); o->rejected++; }
-            if (r.chance(1, 6)) lv::msleep(r.range(0, 3));
+            if (pauseAfter[(size_t)k] >= 0) lv::msleep(pauseAfter[(size_t)k]);
+        };
+        if (issuers == 1) { for (int k = 0; k < nreq; k++) issue(k); }
+        else {
+            std::atomic<int> ready{0}; std::atomic<bool> go{false}; std::vector<std::thread> it;
+            for (int t = 0; t < issuers; t++) it.emplace_back([&, t] { ready++; while (!go.load(std::memory_order_acquire)) { } for (int k = t; k < nreq; k += issuers) issue(k); });
+            while (ready.load() < issuers) lv::msleep(1);
+            go.store(true, std::memory_order_release);
+            for (auto& t : it) t.join();
+            count("batches_issued_from_several_threads");
         }
         // wait: everything settled, or the server has been idle for the grace period
         double lf = lv::load_factor();
@@ -144,6 +163,29 @@ static void c15_batch(long idx, long n, uint64_t seed) {
             catch (const std::exception& e) { o->err = e.what(); o->rejected++; }
         }
         if (wave2) { nreq += wave2; double e2 = lv::now() + 5.0 * lf; while (!allSettled() && lv::now() < e2) lv::msleep(10); }
+        // stampede rounds: with every connection idle, several application threads call send() at the same instant (requests
+        // built beforehand, threads released by a spin barrier), so the idle->used claim of one connection is contended
+        if (scenario == 0 && allSettled()) {
+            int T = r.range(3, 6), rounds = (int)g_opts.num("stampede", 150); bool stuck = false;
+            for (int round = 0; round < rounds && !stuck; round++) {
+                int first = nreq;
+                for (int t = 0; t < T; t++) { out.emplace_back(new Outcome()); beh.push_back(B_IMMEDIATE); timeoutMs.push_back(0); }
+                nreq += T;
+                std::atomic<int> ready{0}; std::atomic<bool> go{false}; std::vector<std::thread> it;
+                for (int t = 0; t < T; t++) it.emplace_back([&, t] {
+                    int id = first + t; Outcome* o = out[(size_t)id].get();
+                    auto rb = client.get(base + "/t/" + std::to_string(id) + "/0/3");
+                    ready++; while (!go.load(std::memory_order_acquire)) { }
+                    try { rb.send().then([o](Http::Response resp) { int tg = -1; sscanf(resp.body().c_str(), "tag=%d;", &tg); o->tag = tg; o->status = (int)resp.code(); o->fulfilled++; }, [o](std::exception_ptr) { o->rejected++; }); }
+                    catch (const std::exception& e) { o->err = e.what(); o->rejected++; } });
+                while (ready.load() < T) std::this_thread::yield();
+                go.store(true, std::memory_order_release);
+                for (auto& t : it) t.join();
+                double e3 = lv::now() + 4.0 * lf; while (!allSettled() && lv::now() < e3) usleep(200);
+                if (!allSettled()) stuck = true;
+                count("stampede_rounds");
+            }
+        }
         std::vector<ReqLog> log; std::vector<std::string> gerr; { std::lock_guard<std::mutex> g(srv.m); log = srv.log; gerr = srv.grammarErrors; }
         std::map<int, ReqLog> byId; for (auto& l : log) byId[l.id] = l;
         // which connection served a late-answered, timed-out request just before?
@@ -182,7 +224,7 @@ static void c15_batch(long idx, long n, uint64_t seed) {
         }
         if (srv.peak.load() > maxConn) viol("c15:too-many-connections", cfg + ": " + std::to_string(srv.peak.load()) + " simultaneous connections", Json().num("i", idx).str("config", cfg).num("peak", srv.peak.load()).done());
         for (auto& e : gerr) viol("c05:client-request:" + e.substr(0, e.find(" |")).substr(0, 50), "request emitted by the client is not well-formed: " + e, Json().num("i", idx).str("config", cfg).str("detail", e).done());
-        g_distinct.add(std::to_string(threads) + "|" + std::to_string(maxConn) + "|" + std::to_string(nreq > maxConn) + "|" + std::to_string(scenario) + "|" + std::to_string(nreq / 8));
+        g_distinct.add(std::to_string(threads) + "|" + std::to_string(maxConn) + "|" + std::to_string(nreq > maxConn) + "|" + std::to_string(scenario) + "|" + std::to_string(nreq / 8) + "|" + std::to_string(issuers > 1));
         count("batches"); count("requests", nreq);
         { std::lock_guard<std::mutex> g(g_cm); g_counts["peak_connections_max"] = std::max<long>(g_counts["peak_connections_max"], srv.peak.load()); }
         if (g_samples_left > 0) { g_samples_left--; sample(Json().str("config", cfg).num("server_saw_requests", (long long)log.size()).num("peak_connections", srv.peak.load()).done()); }
